@@ -186,10 +186,24 @@ func execute(r *core.Run, c *Case) {
 		w         *envcmp.Want
 	}
 	var returned []kept
+	// ... and every content a successful Verify / Content handed out: the caller
+	// holds it, later operations on the object (failed signings included) are
+	// none of its business
+	type keptContent struct {
+		c       *signature.EnvelopeContent
+		payload []byte
+	}
+	var handedOut []keptContent
 	defer func() {
 		for _, k := range returned {
 			if !bytes.Equal(k.raw, k.copy) {
 				r.Violation("returned-bytes-changed-later:"+mtName(mt), c.desc()+": bytes returned by an earlier successful Sign were modified by later operations on the object", c)
+				return
+			}
+		}
+		for _, k := range handedOut {
+			if !bytes.Equal(k.c.Payload.Content, k.payload) {
+				r.Violation("returned-content-changed-later:"+mtName(mt), c.desc()+": the payload of a content handed out earlier was modified by later operations on the object", c)
 				return
 			}
 		}
@@ -388,6 +402,9 @@ func execute(r *core.Run, c *Case) {
 			}); p != nil {
 				r.Count("panicked", 1)
 				return
+			}
+			if oerr == nil && content != nil {
+				handedOut = append(handedOut, keptContent{content, append([]byte{}, content.Payload.Content...)})
 			}
 			var next []state
 			var why []string
